@@ -115,6 +115,14 @@ func fieldDefs(p protoSpec, n, d, pos int) []fdef {
 		}
 		add(2, -1, "point", 1, "nonce.0", true, "bigR", "x", cb)
 		add(2, -1, "raw", 1, "witness.0", false, "bigROpening")
+	case "ot":
+		if pos == 0 {
+			add(1, 0, "point", 1, "otsender.0", false, "ms", cb)
+		}
+	case "vole":
+		if pos == 0 {
+			add(1, 0, "point", 1, "otsender.0", false, "OtR1", "ms", cb)
+		}
 	case "lindell17":
 		if pos == 0 {
 			add(1, 0, "commit", 0, "", true, "bigR1Commitment")
@@ -172,7 +180,7 @@ func fieldsOf(p protoSpec, o *obs) []field {
 // ---- model configuration -----------------------------------------------------------------
 
 type mcfg struct {
-	fam                      string
+	fam                       string
 	n, d, w, xi, l, rho, pail int
 }
 
@@ -223,6 +231,23 @@ func modelCfg(p protoSpec, o *obs, pos int) mcfg {
 		if msg := o.msg(4, id, peers[0]); msg != nil {
 			m.rho = lenAt(o.decoded(msg), "mulR2", "Eta")
 		}
+	case "ot":
+		if msg := o.msg(2, o.IDs[1], o.IDs[0]); msg != nil {
+			v := o.decoded(msg)
+			m.xi = lenAt(v, "phi")
+			m.l = lenAt(v, "phi", "#0", "#0")
+		}
+		m.fam = []string{"ot-sender", "ot-receiver"}[pos]
+	case "vole":
+		if msg := o.msg(2, o.IDs[1], o.IDs[0]); msg != nil {
+			v := o.decoded(msg)
+			m.xi = lenAt(v, "OtR2", "phi")
+			m.l = lenAt(v, "OtR2", "phi", "#0", "#0")
+		}
+		if msg := o.msg(3, o.IDs[0], o.IDs[1]); msg != nil {
+			m.rho = lenAt(o.decoded(msg), "eta")
+		}
+		m.fam = []string{"vole-alice", "vole-bob"}[pos]
 	case "lindell17":
 		m.rho = 16 // repetitions of the Fischlin compiler (fischlin: rho = 16 parallel Schnorr commitments)
 		m.pail = 384
@@ -374,7 +399,7 @@ func (c *checker) tie(p protoSpec, seed int64, j sharing.ID, lab string, o *obs)
 					c.mismatch("corr", fmt.Sprintf("%s-draw-count", p.Name),
 						fmt.Sprintf("party %d round %d: the tape served reads of [%s] bytes, the draw specification (%s %s) says [%s]", uint64(id), r, rle(obsN), cfg.fam, cfg.args(), rle(want)),
 						kase, "C07 (ii) draw count = draws table (coq/model/Draws.v draws)", false)
-					rows = nil
+					// the offset tie below is still evaluated against the specified offsets
 				}
 				c.res.Count(p.Name+"/draws", fmt.Sprintf("%s party=%d round=%d", kase, uint64(id), r), len(obsN) > 0)
 			})
